@@ -1229,7 +1229,13 @@ func (ctx *Context) evaluate() {
 				name, _ := stName.ReadString()
 				if stInfo.Op == "-" {
 					// 负号取正，以免-和-=出现符号一正一反的情况
-					stVal = stVal.OpNegation()
+					neg := stVal.OpNegation()
+					if neg == nil {
+						// 非数字类型无法取负(如 ^sta-0*[1])，此前会对 nil 调用 Clone 而崩溃
+						ctx.Error = errors.New("st: 修改值必须为数字类型，得到 " + stVal.GetTypeName())
+						return
+					}
+					stVal = neg
 				}
 				e.Config.CallbackSt("mod", name, stVal.Clone(), nil, stInfo.Op, stInfo.Text)
 			}
